@@ -813,6 +813,13 @@ def compare(obs, case, rb, rv, K, aligned):
     vs = [s[..., :K] for s in rv["scores"]]
     bx = {k: [c[..., :K] for c in v] for k, v in rb["extra_feat"].items()}
     vx = {k: [c[..., :K] for c in v] for k, v in rv["extra_feat"].items()}
+    # one "mode column" = one trailing index of the scores; extra component dims that the scores do not have
+    # (ExtendedEOF's embedding) belong to the rows of a column
+    col = bs[0].shape[1:]
+    rows = lambda a: a.reshape((-1,) + col) if a.shape[a.ndim - len(col) :] == col else a  # noqa: E731
+    bc, vc = [rows(c) for c in bc], [rows(c) for c in vc]
+    bx = {k: [rows(c) for c in v] for k, v in bx.items()}
+    vx = {k: [rows(c) for c in v] for k, v in vx.items()}
     bt = {k: [c[..., :K] for c in v] for k, v in rb["extra_samp"].items() if k in rv["extra_samp"]}
     vt = {k: [c[..., :K] for c in v] for k, v in rv["extra_samp"].items() if k in rb["extra_samp"]}
     if aligned:
